@@ -562,8 +562,28 @@ pub fn c06_case(seed: u64, idx: u64) -> Option<(Model, String, String)> {
             m.terms[k].ty = TypeExpr::path(&m.nts[j].name.clone());
         }
     }
+    let mut text_only = false;
+    if rng.chance(0.12) {
+        // attributes that compile on any item: lint levels, and whatever can be assembled from the string
+        // literals of kiki's own sources (a magic key must not change the declared shapes)
+        let d = crate::gtext::repo_dictionary();
+        for nt in m.nts.iter_mut() {
+            if rng.chance(0.5) {
+                nt.attrs.push(format!("#[allow({})]", rng.pick_str(crate::gtext::LINT_NAMES)));
+            }
+            if !d.attr_literals.is_empty() && rng.chance(0.5) {
+                // (rustc does not know these attributes: such a case is checked at the text level only)
+                nt.attrs.push(d.pick_attr(&mut rng).unwrap());
+                text_only = true;
+            }
+        }
+    }
     let src = m.render();
-    let lib = format!("#![allow(warnings)]\npub struct Pay(pub usize);\npub struct ItSelfNode(pub usize);\npub mod gen;\n{}", client_source(&m));
+    let lib = if text_only {
+        String::new()
+    } else {
+        format!("#![allow(warnings)]\npub struct Pay(pub usize);\npub struct ItSelfNode(pub usize);\npub mod gen;\n{}", client_source(&m))
+    };
     Some((m, src, lib))
 }
 
@@ -681,6 +701,10 @@ impl Compile {
             }
         }
         // type level: the client must type-check
+        if lib.is_empty() {
+            w.count("clients-skipped:attributes-unknown-to-rustc (text level only)");
+            return;
+        }
         let dir = w.scratch.join(format!("c06-{}", w.shard));
         match runner::compile(&dir, &text, &lib, true) {
             CompileResult::Ok(_) => {
